@@ -35,6 +35,15 @@ def layouts() -> list[dict]:
                 "files": {"a/main.exps": 'import "./l/one.exps";\n' + main_body,
                           "a/l/one.exps": 'import "./two.exps";\nmacro f() {\n    ~g();\n}\n', "a/l/two.exps": lib("g", 4), "a/two.exps": lib("g", 5)},
                 "main": "a/main.exps", "lps": [], "expect": 4})
+    out.append({"name": "nested_import_through_lookup_path",
+                "files": {"a/main.exps": 'import "./l/one.exps";\n' + main_body,
+                          "a/l/one.exps": 'import "common.exps";\nmacro f() {\n    ~g();\n}\n', "p1/other.exps": lib("h", 1), "p2/common.exps": lib("g", 6),
+                          "a/l/common.exps": lib("g", 7), "a/common.exps": lib("g", 8)},
+                "main": "a/main.exps", "lps": ["@ROOT@/p1", "@ROOT@/p2"], "expect": 6})
+    out.append({"name": "lookup_import_of_a_file_that_imports_through_lookup",
+                "files": {"a/main.exps": 'import "one.exps";\n' + main_body,
+                          "p2/one.exps": 'import "deep/two.exps";\nmacro f() {\n    ~g();\n}\n', "p1/deep/two.exps": lib("g", 9), "p2/two.exps": lib("g", 3)},
+                "main": "a/main.exps", "lps": ["@ROOT@/p1", "@ROOT@/p2"], "expect": 9})
     out.append({"name": "missing", "files": {"a/main.exps": 'import "./nope.exps";\n' + main_body}, "main": "a/main.exps", "lps": [], "expect": "Compiler"})
     out.append({"name": "cycle", "files": {"a/main.exps": 'import "./x.exps";\n' + main_body, "a/x.exps": 'import "./y.exps";\n' + lib("f", 1), "a/y.exps": 'import "./x.exps";\n' + lib("g", 1)},
                 "main": "a/main.exps", "lps": [], "expect": "Compiler"})
@@ -70,6 +79,10 @@ def run_imports(run, quick: bool) -> None:
         n = r.randint(3, 7)
         dirs = [r.choice(["m", "m/lib", "m/lib/shared", "base"]) for _ in range(n)]
         dirs[0] = "m"
+        # some files live in a lookup directory and are imported by their bare name, from files at any depth
+        via_lookup = {k for k in range(1, n) if r.random() < 0.3}
+        for k in via_lookup:
+            dirs[k] = r.choice(["lp1", "lp2"])
         names = [f"{dirs[k]}/f{k}.exps" for k in range(n)]
         deps = {k: sorted(r.sample(range(k + 1, n), r.randint(0 if k else 1, min(3, n - k - 1)))) for k in range(n)}
         files = {}
@@ -80,14 +93,15 @@ def run_imports(run, quick: bool) -> None:
                 out += order(d)
             return out
         for k in range(n):
-            imps = "".join('import "./%s";\n' % os.path.relpath(names[d], os.path.dirname(names[k])) for d in deps[k])
+            imps = "".join(('import "f%d.exps";\n' % d) if d in via_lookup else
+                           ('import "./%s";\n' % os.path.relpath(names[d], os.path.dirname(names[k]))) for d in deps[k])
             body = f"    from_lib({k});\n" + "".join(f"    ~g{d}();\n" for d in deps[k])
             if k == 0:
                 files["m/main.exps"] = imps + "def 0 {\n" + "".join(f"    ~g{d}();\n" for d in deps[0]) + "    end;\n}\n"
             else:
                 files[names[k]] = imps + f"macro g{k}() {{\n{body}}}\n"
         expect = [x for d in deps[0] for x in order(d)]
-        ls.append({"name": f"import_dag:{i}", "files": files, "main": "m/main.exps", "lps": [], "expect": expect})
+        ls.append({"name": f"import_dag:{i}", "files": files, "main": "m/main.exps", "lps": ["@ROOT@/lp1", "@ROOT@/lp2"], "expect": expect})
     res = run_impl([("files:compile_files", l["files"], l["main"], l["lps"]) for l in ls])
     for l, r in zip(ls, res):
         run.case(["imports", l["name"], l["files"], l["lps"]], nontrivial=True)
